@@ -96,3 +96,38 @@ impl IcuDataProvider for FaultyProvider {
         CurrencyFormatter::try_new(locale, options)
     }
 }
+
+/// What an application installs at boot before its real data is available: every formatter is built for the root
+/// locale, whatever locale is asked for. The simulator installs it first and then replaces it with `FaultyProvider`:
+/// `set_icu_data_provider` replaces the provider, so nothing formatted afterwards may come from this one.
+pub struct BootProvider;
+
+impl IcuDataProvider for BootProvider {
+    fn try_new_num_formatter(&self, _: &DataLocale, options: icu_decimal::options::FixedDecimalFormatterOptions) -> Result<FixedDecimalFormatter, icu_decimal::DecimalError> {
+        FixedDecimalFormatter::try_new(&DataLocale::default(), options)
+    }
+    fn try_new_date_formatter(&self, _: &DataLocale, length: length::Date) -> Result<DateFormatter, icu_datetime::DateTimeError> {
+        DateFormatter::try_new_with_length(&DataLocale::default(), length)
+    }
+    fn try_new_time_formatter(&self, _: &DataLocale, length: length::Time) -> Result<TimeFormatter, icu_datetime::DateTimeError> {
+        TimeFormatter::try_new_with_length(&DataLocale::default(), length)
+    }
+    fn try_new_datetime_formatter(&self, _: &DataLocale, options: icu_datetime::options::DateTimeFormatterOptions) -> Result<DateTimeFormatter, icu_datetime::DateTimeError> {
+        DateTimeFormatter::try_new(&DataLocale::default(), options)
+    }
+    fn try_new_and_list_formatter(&self, _: &DataLocale, style: ListLength) -> Result<ListFormatter, icu_list::ListError> {
+        ListFormatter::try_new_and_with_length(&DataLocale::default(), style)
+    }
+    fn try_new_or_list_formatter(&self, _: &DataLocale, style: ListLength) -> Result<ListFormatter, icu_list::ListError> {
+        ListFormatter::try_new_or_with_length(&DataLocale::default(), style)
+    }
+    fn try_new_unit_list_formatter(&self, _: &DataLocale, style: ListLength) -> Result<ListFormatter, icu_list::ListError> {
+        ListFormatter::try_new_unit_with_length(&DataLocale::default(), style)
+    }
+    fn try_new_plural_rules(&self, _: &DataLocale, rule_type: PluralRuleType) -> Result<PluralRules, icu_plurals::PluralsError> {
+        PluralRules::try_new(&DataLocale::default(), rule_type)
+    }
+    fn try_new_currency_formatter(&self, _: &DataLocale, options: CurrencyFormatterOptions) -> Result<CurrencyFormatter, DataError> {
+        CurrencyFormatter::try_new(&DataLocale::default(), options)
+    }
+}
